@@ -178,7 +178,7 @@ Tokenizer_tokenize(Tokenizer *self, PyObject *args)
 
     Tokenizer_free_bad_route_tree(self);
 
-    if (!tokens || self->topstack) {
+    if (!tokens || self->topstack || PyErr_Occurred()) {
         Py_XDECREF(tokens);
         if (PyErr_Occurred()) {
             return NULL;
